@@ -46,7 +46,7 @@ def conjuncts (c : Option Expr) : List Expr := (conjuncts1 c).flatMap splice
 
 /-- column references the planners write (explicit lists: an unknown spelling fails closed) -/
 def isTsCol (s : String) : Bool :=
-  ["timestamp_ns", "samples.timestamp_ns", "traces_idx.timestamp_ns", "time_series.timestamp_ns", "traces.timestamp_ns"].contains s
+  ["timestamp_ns", "samples.timestamp_ns", "traces_idx.timestamp_ns", "time_series.timestamp_ns", "traces.timestamp_ns", "p.timestamp_ns"].contains s
 def isDateCol (s : String) : Bool := ["date", "time_series.date", "traces_idx.date"].contains s
 def isFpCol (s : String) : Bool := ["fingerprint", "samples.fingerprint", "time_series.fingerprint"].contains s
 
@@ -111,6 +111,9 @@ structure Cfg where
 def fromTable : Option Expr → Option String
   | some (.raw t) => some t
   | some (.col (.raw t) _) => some t
+  -- `FROM t [as a] array JOIN arr` (the Pyroscope series planners un-nest a column of the table they scan)
+  | some (.arrayJoin (.raw t) _) => some t
+  | some (.arrayJoin (.col (.raw t) _) _) => some t
   | _ => none
 
 /-- One SELECT is confined, given the aliases already known to be confined index selections (`okFp`). -/
